@@ -57,10 +57,10 @@ def register(reg):
                  requires=WF,
                  hints=["implies(result is not None, idx * self.resolution[0] == coord.E - self.xmin)",
                         "implies(result is not None, ((self.nrow - 1) - idy) * self.resolution[1] == coord.N - self.ymin)",
-                        "implies(result is not None, (idx - result[0]) * self.resolution[0] >= 0)",
-                        "implies(result is not None, (result[0] + 1 - idx) * self.resolution[0] >= 0)",
-                        "implies(result is not None, (result[1] - idy) * self.resolution[1] >= 0)",
-                        "implies(result is not None, (idy - (result[1] - 1)) * self.resolution[1] >= 0)"],
+                        "use implies(result is not None, mul_nonneg(idx - result[0], self.resolution[0]))",
+                        "use implies(result is not None, mul_nonneg(result[0] + 1 - idx, self.resolution[0]))",
+                        "use implies(result is not None, mul_nonneg(result[1] - idy, self.resolution[1]))",
+                        "use implies(result is not None, mul_nonneg(idy - (result[1] - 1), self.resolution[1]))"],
                  ensures=[("none-iff-outside", "(result is None) == (not %s)" % INSIDE),
                           ("column-in-range", "implies(result is not None, 0 <= result[0] and result[0] < self.ncol)"),
                           ("line-in-range", "implies(result is not None, 0 <= result[1] and result[1] < self.nrow)"),
@@ -71,6 +71,7 @@ def register(reg):
                            "coord.N <= self.ymin + (self.nrow - result[1]) * self.resolution[1])")]))
 
 
+USES_LIB = True
 FUNCTIONS = [U + n for n in ("co_sum", "co_count", "co_avg", "co_min", "co_max")] + [R + "getCell"]
 ASSUMPTIONS = ["co_median (selection sort with list.remove) is outside the proved part: bounded only",
                "eval(aggregate + '(tarray)') dispatch in computeAggregates is trusted to call the function of that name"]
